@@ -606,3 +606,44 @@ def r01_7(prog, rep, rid="R01.7", files=("evrrul.c", "evical.c", "scale.c", "ins
                             rep.ok(rid, key, f.loc(nn.get("line", line)), "`%s` compares in the type of its operands" % show(nn)[:60], nontrivial=(k == 1))
     if n < 2:
         rep.broken_("rule=%s expected >=2 comparisons of additive expressions with 0, found %d" % (rid, n))
+
+
+# ---------------------------------------------------------------------------
+# R01.8 a mask duplicated for wrap-around is clamped to the width it was duplicated by
+
+def r01_8(prog, rep, rid="R01.8"):
+    """`v |= v << N; v >>= start; v &= C` is the idiom for reading a cyclic set of N positions from an arbitrary start: the copy shifted
+    by N supplies the positions that wrap around.  The clamp must keep exactly N positions, C = 2^N - 1; one bit less and the position
+    N-1 after the start (for the weekly filler: the weekday before DTSTART's) is silently dropped from the set."""
+    n = 0
+    for f in prog.fns_in(FILLER_FILE):
+        if not f.cfg:
+            continue
+        cfg = f.cfg
+        dups = []
+        clamps = []
+        for b, i, x, line in cfg.all_elems():
+            if not isinstance(x, dict):
+                continue
+            for l, kind, nn in writes(x):
+                if kind != "compound" or strip_casts(l).get("k") != "ref":
+                    continue
+                r = strip_casts(cfg.resolve(nn["r"]))
+                if nn["op"] == "|=" and r.get("k") == "bin" and r["op"] == "<<" and lv(strip_casts(r["l"])) == lv(l) and int_value(r["r"]) is not None:
+                    dups.append((lv(l), int_value(r["r"]), b, i, nn.get("line", line)))
+                if nn["op"] == "&=" and int_value(r) is not None:
+                    clamps.append((lv(l), int_value(r), b, i, nn.get("line", line)))
+        for v, N, b, i, line in dups:
+            for v2, C, b2, i2, line2 in clamps:
+                if v2 != v or not ((b2 == b and i2 > i) or (b2 != b and b2 in cfg.reach_from(b))):
+                    continue
+                n += 1
+                key = "%s/wrap-clamp(%s)" % (f.name, v)
+                if C == (1 << N) - 1:
+                    rep.ok(rid, key, f.loc(line2), "%s is duplicated by %d positions and clamped to %d positions" % (v, N, N))
+                else:
+                    rep.fail(rid, key, f.loc(line2), "%s is duplicated by %d positions for wrap-around but clamped with %#x, which keeps %d positions: the position %d "
+                             "after the start is dropped from the cyclic set (for the weekly filler a BYDAY naming the weekday before DTSTART's "
+                             "is ignored)" % (v, N, C, bin(C).count("1"), N - 1))
+    if n < 1:
+        rep.broken_("rule=%s expected >=1 wrap-around mask in the fillers, found %d" % (rid, n))
